@@ -5,9 +5,10 @@
                 what else happened ("none", "builderror", "hostpanic", ...)
      initorder  {id, nv, nf, deps, outcome, order}
      conv       {id, op, k, v, a, outcome, out}
-     minigo     {id, shape, prog, exp, out, outcome, msg}
+     minigo     {id, shape, exp, alt, out, outcome, msg}      (the check strips prog before judging)
+     variadic / select / constuse   {id, <the fields of the case, see GoMisc.tla>, outcome, out}
    A record is good iff the observation is what the Go-semantics reference prescribes. *)
-EXTENDS IntALU, InitOrder, StrConv, Json, SequencesExt
+EXTENDS IntALU, InitOrder, StrConv, GoMisc, Json, SequencesExt
 
 (* ---- intalu *)
 AluExpectsPanic(r) == (r.op \in {"div", "rem"} /\ r.y.s = 0) \/ (r.op \in Shifts /\ r.y.s < 0)
@@ -22,9 +23,9 @@ AluCause(r) ==
   ELSE IF r.v # r.w THEN "not-truncated" ELSE "wrong-value"
 AluSig(r) == [fam |-> "intalu", op |-> r.op, k |-> r.k, form |-> r.form, cause |-> AluCause(r)]
 
-(* ---- initorder: {id, nv, nf, rev, deps, outcome, order}: order = the numbers printed by the variables'
-   initialisers, in order, then 0 printed by main; deps[n] lists the dependencies of n in the order in which the
-   source text mentions them (the reference only looks at the set).  The build error's wording is not judged, only its class. *)
+(* ---- initorder: {id, nv, nf, deps, orders, form, outcome, order}: order = the numbers printed by the variables'
+   initialisers, in order, then 0 printed by main; form = the textual order in which the program mentions the
+   dependencies deps[n] of a node, "asc" or "desc" (the reference only looks at the set).  The build error's wording is not judged, only its class. *)
 InitOk(r) == IF RefCyclic(r.deps, r.nv) THEN r.outcome = "builderror"
              ELSE r.outcome = "ok" /\ r.order = Append(RefOrder(r.deps, r.nv), 0)
 InitCause(r) ==
@@ -54,14 +55,47 @@ MgMsgClass(m) == MgTrim(m, MgCut(m, 1))
 MgOk(r) == /\ r.outcome = r.exp.outcome
            /\ r.out = r.exp.out
            /\ (r.outcome = "panic" => MgMsgClass(r.msg) = MgMsgClass(r.exp.msg))
+\* what is wrong, the final outcome first (a wrong outcome is not hidden by a difference in the output)
 MgCause(r) == IF r.outcome \notin {"ok", "panic"} THEN r.outcome
-              ELSE IF r.out # r.exp.out THEN "wrong-output"
               ELSE IF r.outcome # r.exp.outcome THEN (IF r.exp.outcome = "panic" THEN "missing-panic" ELSE "unexpected-panic")
+              ELSE IF r.out # r.exp.out THEN "wrong-output"
               ELSE "wrong-panic-message"
-MgSig(r) == [fam |-> "minigo", shape |-> r.shape, cause |-> MgCause(r)]
+\* how the printed output differs: "same"; "lines": different lines; otherwise the same lines with the same leading
+\* token, and "zero-expected": every token that differs is a 0 in the reference (a zero value was due);
+\* "result-expected": every token that differs is 0 or >= 100 in the reference (in the programs of MiniGoFlow.tla these
+\* are the results of function calls: 100 + id, or 0 after a recovered panic - the values of recover() are below 100);
+\* "values": anything else
+MgSameFrame(a, b) == /\ Len(a) = Len(b)
+                     /\ \A l \in 1..Len(a) : Len(a[l]) = Len(b[l]) /\ (Len(a[l]) > 0 => a[l][1] = b[l][1])
+MgOutDiff(r) ==
+  IF r.out = r.exp.out THEN "same"
+  ELSE IF ~MgSameFrame(r.out, r.exp.out) THEN "lines"
+  ELSE IF \A l \in 1..Len(r.out) : \A t \in 1..Len(r.out[l]) :
+             r.out[l][t] # r.exp.out[l][t] => (r.exp.out[l][t].k = "i" /\ r.exp.out[l][t].n = 0) THEN "zero-expected"
+  ELSE IF \A l \in 1..Len(r.out) : \A t \in 1..Len(r.out[l]) :
+             r.out[l][t] # r.exp.out[l][t] => (r.exp.out[l][t].k = "i" /\ (r.exp.out[l][t].n = 0 \/ r.exp.out[l][t].n >= 100)) THEN "result-expected"
+  ELSE "values"
+\* alt = the observable, by the same reference interpreter, of the program with the labels of its break / continue
+\* statements erased (outcome "none" when the program has no such variant): names the root cause "the label is ignored"
+MgLike(r) == IF r.alt.outcome # "none" /\ r.outcome = r.alt.outcome /\ r.out = r.alt.out THEN "label-ignored" ELSE "other"
+MgRecSig(r) == [fam |-> "minigo", shape |-> r.shape, cause |-> MgCause(r), out |-> MgOutDiff(r), like |-> MgLike(r)]
+
+(* ---- variadic, select, constuse: out = the numbers (type names for constuse) the case's program printed *)
+MiscFams == {"variadic", "select", "constuse"}
+MiscOk(r) == r.outcome = "ok" /\ r.out = MiscRef(r)
+MiscCause(r) == IF r.outcome # "ok" THEN r.outcome
+                ELSE IF r.fam = "variadic" /\ Len(r.out) > r.nfix /\ r.out[r.nfix + 1] # MiscRef(r)[r.nfix + 1] THEN "wrong-nilness"
+                ELSE IF r.fam = "select" /\ Len(r.out) > 0 /\ r.out[1] # r.ready THEN "wrong-case-chosen"
+                ELSE "wrong-result"
+MiscSig(r) == CASE r.fam = "variadic" -> [fam |-> "variadic", mode |-> r.mode, form |-> r.form, cause |-> MiscCause(r)]
+                [] r.fam = "select" -> [fam |-> "select", cause |-> MiscCause(r),
+                                        chosen |-> IF r.ready = 0 THEN "default" ELSE r.dirs[r.ready]]
+                [] r.fam = "constuse" -> [fam |-> "constuse", kind |-> r.kind, how |-> r.how, cause |-> MiscCause(r)]
 
 RecOk(r) == CASE r.fam = "intalu" -> AluOk(r) [] r.fam = "initorder" -> InitOk(r) [] r.fam = "conv" -> ConvOk(r) [] r.fam = "minigo" -> MgOk(r)
-Sig(r) == CASE r.fam = "intalu" -> AluSig(r) [] r.fam = "initorder" -> InitSig(r) [] r.fam = "conv" -> ConvSig(r) [] r.fam = "minigo" -> MgSig(r)
+              [] r.fam \in MiscFams -> MiscOk(r)
+Sig(r) == CASE r.fam = "intalu" -> AluSig(r) [] r.fam = "initorder" -> InitSig(r) [] r.fam = "conv" -> ConvSig(r) [] r.fam = "minigo" -> MgRecSig(r)
+            [] r.fam \in MiscFams -> MiscSig(r)
 Cause(r) == <<r.fam, Sig(r).cause>>
 
 (* ---- record-walk skeleton (as in spec/lib2/Trace_HTMLEscape.tla).  One difference: when more than 400 records are bad, the list
